@@ -323,3 +323,29 @@ pub fn slice_to_vec_u8(s: &[u8]) -> (v: Vec<u8>)
 {
     s.to_vec()
 }
+
+// ---- the active TTL sweeper (ttl_sweep.rs)
+pub struct TtlConfig {
+    pub sample_size: usize,
+}
+#[verifier::external_body]
+pub struct RngH { _p: () }
+#[verifier::external_body]
+pub fn rng_handle() -> RngH { unimplemented!() }
+// reservoir sample of (key, record) pairs that carry an expiry; nothing is assumed about the pairs
+#[verifier::external_body]
+pub fn sample_ttl_entries(hash_table: &HashIndex, sample_size: usize, rng: &mut RngH) -> Vec<(Vec<u8>, Arc<Record>)> { unimplemented!() }
+
+impl FeoxStore {
+    #[verifier::external_body]
+    pub fn get_timestamp_pub(&self) -> u64 { unimplemented!() }
+    #[verifier::external_body]
+    pub fn get_hash_table(&self) -> &HashIndex { unimplemented!() }
+    #[verifier::external_body]
+    pub fn remove_from_tree(&self, key: &[u8]) { unimplemented!() }
+    #[verifier::external_body]
+    pub fn get_write_buffer(&self) -> Option<&WriteBufferH> { unimplemented!() }
+}
+
+pub fn drop<T>(t: T) {
+}
